@@ -69,9 +69,18 @@ def rule_wfs(ctx, rep):
         syn = _srccalls(f, "___cds_wfs_node_sync_next")
         for s in syn:
             rep.check(ir.expr(f, s.args[1]) == ("arg", 2), "C11.wfs", tag + ".blocking-flag", "blocking flag handed unchanged to the wait", "wait ignores the caller's blocking flag", [s.where()])
+        from .. import dtable as _dt
         for p, atoms, v in paths.ret_cases(f):
             if v == ("c", 0):
-                ok = any(a[0] == "eq" and a[2] == ("c", 1) and a[1][0] == "load" for a in atoms)
+                # NULL only for the END class of the head word, never for a node address (whatever the encoding of the END test)
+                hid = [z[3] for a in atoms if len(a) == 3 for x in (a[1], a[2]) if isinstance(x, tuple) for z in ir.subexprs(x) if z[0] == "load"]
+                ok = False
+                for h in set(hid):
+                    rel = [a for a in atoms if len(a) == 3 and any(z[0] == "load" and z[3] == h for x in (a[1], a[2]) if isinstance(x, tuple) for z in ir.subexprs(x))]
+                    t_end = [_dt.truth(a, {h: ("c", 1), "__aligned__": True}) for a in rel]
+                    t_node = [_dt.truth(a, {h: (_dt.OTHER, h), "__aligned__": True}) for a in rel]
+                    if all(t is not False for t in t_end) and any(t is False for t in t_node):
+                        ok = True
                 rep.check(ok, "C11.wfs", tag + ".null-iff-END", "NULL only when head == END", "NULL returned on %s" % [ir.atom_str(a) for a in atoms], [f.rets()[0].where()])
     for lib, f in copies(ctx, "___cds_wfs_pop_all"):
         rep.touch(f)
@@ -209,7 +218,7 @@ def rule_iter(ctx, rep):
     for name, exp in spec.items():
         f = m.fn(name)
         pat.require(f is not None, name + " vanished")
-        dtable.compare(rep, "C11.iter", name, f, exp, "next word classes (0 = push in flight, 1 = END, X = node)")
+        dtable.compare(rep, "C11.iter", name, f, exp, "next word classes (0 = push in flight, 1 = END, X = node)", aligned=True)
     # results that report the stack state at the operation's linearisation point (the value the exchange returned)
     ret = {
         "cds_wfs_push": ({(1,): {0}, ("X",): {1}}, "push returns `stack was non-empty` = (exchanged-out head != END)"),
